@@ -348,6 +348,10 @@ class Check:
 
     # -- case collection
     def add(self, line: str, impl_out: str, nontrivial: bool = True, tag: str | None = None):
+        if impl_out == "route-unavailable":
+            # the harness could not reach the code this line exercises (ops.UNAVAILABLE): skipped, counted
+            self.routes_unavailable = getattr(self, "routes_unavailable", 0) + 1
+            return
         self.lines.append(line)
         self.impl.append(impl_out)
         self.nontrivial.append(nontrivial)
@@ -441,6 +445,10 @@ class Check:
     # -- verdict
     def finish(self, level: str = "proof", matchers=None, shrink=None) -> int:
         assert self.proof is not None
+        skipped = getattr(self, "routes_unavailable", 0)
+        if skipped and skipped >= max(1, len(self.lines)):
+            import ops
+            raise Infra(f"{skipped} of {skipped + len(self.lines)} lines could not be run: {ops.UNAVAILABLE}")
         self.interpreter_crosscheck()
         matchers = matchers or {}
         known = load_known()
@@ -551,6 +559,7 @@ class Check:
             "holds_evaluated_on_impl": self.holds_checked,
             "correspondence_differences": len([f for f in self.failures if f.kind == "correspondence"]),
             "lines_reevaluated_by_interpreter": getattr(self, "interp_checked", 0),
+            "lines_skipped_route_unavailable": getattr(self, "routes_unavailable", 0),
             "distribution": self.tags,
             "exhaustive_scopes": self.exhaustive_scopes,
             "changed_functions": self.changed_functions(),
